@@ -10,6 +10,7 @@ import (
 	"net"
 	"os"
 	"sync"
+	"sync/atomic"
 	"syscall"
 	"time"
 )
@@ -87,6 +88,7 @@ type Sock struct {
 	dlCh   chan struct{}
 	werr   error
 	cerr   error
+	gate   atomic.Pointer[WriteGate] // see SetWriteGate
 }
 
 // Listen creates a socket bound to addr.
@@ -115,6 +117,10 @@ func (s *Sock) Rebind(addr *net.UDPAddr) {
 	s.mu.Unlock()
 	s.n.mu.Unlock()
 }
+
+// Backlog returns the number of datagrams that were delivered to the socket and not read yet (a sender that wants
+// back-pressure instead of drops at a full queue can pace itself with it).
+func (s *Sock) Backlog() int { return len(s.in) }
 
 // Elapsed returns the time since the network was created.
 func (n *Net) Elapsed() time.Duration { return time.Since(n.start) }
@@ -185,6 +191,15 @@ func (s *Sock) WriteMsgUDP(b, oob []byte, addr *net.UDPAddr) (int, int, error) {
 		return 0, 0, net.ErrClosed
 	default:
 	}
+	if g := s.gate.Load(); g != nil {
+		// a socket whose send buffer is full: the write waits inside the socket (see SetWriteGate)
+		(*g)(b, addr, s.closed)
+		select {
+		case <-s.closed:
+			return 0, 0, net.ErrClosed
+		default:
+		}
+	}
 	s.mu.Lock()
 	werr := s.werr
 	src := s.addr
@@ -213,6 +228,23 @@ func (s *Sock) WriteMsgUDP(b, oob []byte, addr *net.UDPAddr) (int, int, error) {
 	n.mu.Unlock()
 	n.route(d)
 	return len(b), 0, nil
+}
+
+// WriteGate is called by WriteMsgUDP before the datagram is handed to the network; see SetWriteGate.
+type WriteGate func(b []byte, dst *net.UDPAddr, closed <-chan struct{})
+
+// SetWriteGate installs (nil: removes) a function that every later WriteMsgUDP on the socket calls first, with no
+// lock held and before the datagram is logged or routed: a socket whose send buffer is full. The function may block -
+// on a channel or for a (virtual) duration - and so decides how long the write stays inside the socket; dst is the
+// destination the caller passed (nil: the connected default), closed is closed when the socket is closed (a blocked
+// write must give up then; WriteMsgUDP then fails with net.ErrClosed as a real socket does). The socket itself adds
+// no synchronisation between the blocked writer and other goroutines (one atomic load).
+func (s *Sock) SetWriteGate(g WriteGate) {
+	if g == nil {
+		s.gate.Store(nil)
+		return
+	}
+	s.gate.Store(&g)
 }
 
 // ReadMsgUDP receives a datagram.
